@@ -392,6 +392,13 @@ func replayC06(c *Ctx, op string, a []string) bool {
 		c06Trunc(c, a[0], a[1], atoi(a[2]), atoi(a[3]), atoi(a[4]))
 	case "fld.dec":
 		c06Dec(c, a[0], unhx(a[1]), atoi(a[2]), atoi(a[3]))
+	case "pkt.hist":
+		var tys, vals []string
+		for i := 1; i+1 < len(a); i += 2 {
+			tys = append(tys, a[i])
+			vals = append(vals, a[i+1])
+		}
+		c06Hist(c, a[0], tys, vals)
 	case "pkt.rt":
 		c06Pkt(c, a[0], a[1], atoi(a[2]), atoi(a[3]), unhx(a[4]))
 	case "nbt.rt":
